@@ -107,3 +107,62 @@ Proof.
     + destruct (IH cs) as [H1 H2]. split; [exact H1|].
       intros c' a [<-|Hin] Hn; [congruence|eapply H2; eauto].
 Qed.
+
+(* ---- step_core, one equation per label (so that proofs never unfold the fuelled loops) ---- *)
+Lemma step_core_open y s ch : step_core y (LOpen s) ch = open_stream y s.
+Proof. reflexivity. Qed.
+Lemma step_core_write y s sid data ch : step_core y (LWrite s sid data) ch = stream_write y s sid data ch.
+Proof. reflexivity. Qed.
+Lemma step_core_read y s sid k ch : step_core y (LRead s sid k) ch =
+  if has_pending_read (sy_pend y) s sid then (y, [ERet R_ERR 9 []])
+  else match try_read y s sid k with
+       | Some (y1, rc, d) => (y1, [ERet rc (N.of_nat (length d)) d])
+       | None => (set_pend y (sy_pend y ++ [PRead s sid 1]), [ERet R_BLOCKED 0 []])
+       end.
+Proof. reflexivity. Qed.
+Lemma step_core_accept y s ch : step_core y (LAccept s) ch =
+  if se_closed (sess y s) then (y, [ERet R_BROKEN_SESSION 0 []])
+  else match try_accept y s with
+       | Some (y1, rc, id) => (y1, [ERet rc id []])
+       | None => if has_pending_accept (sy_pend y) s then (y, [ERet R_ERR 9 []])
+                 else (set_pend y (sy_pend y ++ [PAccept s]), [ERet R_BLOCKED 0 []])
+       end.
+Proof. reflexivity. Qed.
+Lemma step_core_close_stream y s sid ch : step_core y (LCloseStream s sid) ch =
+  let '(y1, _, evs, rc) := close_stream y s sid true ch in (y1, evs ++ [ERet rc 0 []]).
+Proof. reflexivity. Qed.
+Lemma step_core_close_session y s ch : step_core y (LCloseSession s) ch =
+  let '(y1, _, evs, rc) := session_close y s ch in (y1, evs ++ [ERet rc 0 []]).
+Proof. reflexivity. Qed.
+Lemma step_core_deliver y s c ch : step_core y (LDeliver s c) ch =
+  match nthN (N.to_nat c) (sy_conns y) with
+  | None => (y, [ERet R_ERR 0 []])
+  | Some cn =>
+      if conn_closed_end cn s || c_failed cn then (y, [ERet R_ERR 1 []])
+      else match conn_q cn s with
+      | fr :: q =>
+          let '(y2, _, evs) := recv_frame (set_conns y (setN (N.to_nat c) (conn_set_q cn s q) (sy_conns y))) s fr ch in
+          (y2, evs ++ [ERet R_OK 0 []])
+      | [] =>
+          if conn_closed_end cn (other s) then
+            let '(y1, evs) := deplex_error y s c in (y1, evs ++ [ERet R_OK 1 []])
+          else (y, [ERet R_ERR 2 []])
+      end
+  end.
+Proof. reflexivity. Qed.
+Lemma step_core_fail y c ch : step_core y (LFail c) ch =
+  match nthN (N.to_nat c) (sy_conns y) with
+  | None => (y, [ERet R_ERR 0 []])
+  | Some cn =>
+      let y0 := set_conns y (setN (N.to_nat c) (mkC [] [] (c_clA cn) (c_clB cn) true) (sy_conns y)) in
+      let '(y1, e1) := if conn_closed_end cn SA || c_failed cn then (y0, []) else deplex_error y0 SA c in
+      let '(y2, e2) := if conn_closed_end cn SB || c_failed cn then (y1, []) else deplex_error y1 SB c in
+      (y2, e1 ++ e2 ++ [ERet R_OK 0 []])
+  end.
+Proof. reflexivity. Qed.
+Lemma step_core_tick y d ch : step_core y (LTick d) ch =
+  let '(y1, ch1, e1) := fire_timers 64 (set_now y (sy_now y + d)%Z) SA ch in
+  let '(y2, _, e2) := fire_timers 64 y1 SB ch1 in
+  (y2, e1 ++ e2 ++ [ERet R_OK 0 []]).
+Proof. reflexivity. Qed.
+Global Opaque step_core.
